@@ -153,7 +153,7 @@ def fkey (a : Nat) : Int := F32.key (BitVec.ofNat 32 a)
 
 /-- by hybrid score, highest first; `List.mergeSort` is stable, so this serves both for the unstable
 `slices.SortFunc` of `searchParallel` (ties are re-arranged towards the implementation's order below)
-and for the `slices.SortStableFunc` of `SearchPoints` -/
+and for the `slices.SortStableFunc` of its single-sub-query shortcut -/
 def sortHybrid (l : List (Res Nat)) : List (Res Nat) := l.mergeSort fun a b => fkey a.hybrid ≥ fkey b.hybrid
 
 instance : Inhabited (QTree Nat) := ⟨.leaf ⟨[], []⟩⟩
@@ -171,7 +171,7 @@ partial def toQF : List Tree → QForest Nat
 end
 
 /-- the model's `evalTree` (the one `C06_tree` / `C06_answer` are about) -/
-def evalParsed (t : Tree) : SubResult Nat := evalTree fadd sortHybrid (toQ t)
+def evalParsed (t : Tree) : SubResult Nat := evalTree fadd sortHybrid sortHybrid (toQ t)
 
 /-! choosing the sorted permutation the implementation chose (ties only) -/
 
@@ -268,20 +268,20 @@ def step (st : St) (line : String) : St × String :=
       let pick := parseIds (field "pick" rest)
       let r := evalParsed t
       let lo := rq.off.toNat
-      -- ties of the ranking (no explicit sort): equal hybrid scores.  The stable sort of `SearchPoints`
-      -- is applied first; `searchPoints` applies it again, to a list then in order already.
+      -- ties of the ranking (no explicit sort): equal hybrid scores (a composite root is in hybrid-score
+      -- order, a plain leaf in the order of its index: runs of equal hybrid scores are contiguous in both)
       let r' : SubResult Nat := if rq.sort.isEmpty then
-          ⟨r.set, arrange (·.id) (fun a b => fkey a.hybrid == fkey b.hybrid) lo pick (sortHybrid r.res)⟩ else r
+          ⟨r.set, arrange (·.id) (fun a b => fkey a.hybrid == fkey b.hybrid) lo pick r.res⟩ else r
       let c := fun (a b : Row Nat) => sortCmp rq.sort a.data b.data
       let sorter := fun (rows : List (Row Nat)) =>
         arrange (·.id) (fun a b => c a b == 0) lo pick (rows.mergeSort fun a b => c a b ≤ 0)
       -- the driver's own obligations: what it prints is a sorted permutation
       let okRank := (r'.res.map (·.id)).foldr insNat [] == (r.res.map (·.id)).foldr insNat []
-      match searchPoints (docOf st) sortHybrid sorter repaired r' rq with
+      match searchPoints (docOf st) sorter repaired r' rq with
       | .selectError => (st, "error:select")
       | .slicePanic => (st, "panic:slice")
       | .rows p =>
-        let all := match searchPoints (docOf st) sortHybrid sorter true r' { rq with off := 0, lim := 0 } with
+        let all := match searchPoints (docOf st) sorter true r' { rq with off := 0, lim := 0 } with
           | .rows a => a | _ => []
         let okSort := rq.sort.isEmpty || sortedBy c all
         if !(okRank && okSort) then (st, "driver-bug:not-a-sorted-permutation") else
